@@ -1096,7 +1096,7 @@ void SDMXeval_rad_iter(FPtr_eval_sdmx_rad feval, FPtr_exp_sdmx fexp, double fac,
     const int atmstart = bas[sh0 * BAS_SLOTS + ATOM_OF];
     const int atmend = bas[(sh1 - 1) * BAS_SLOTS + ATOM_OF] + 1;
     const int atmcount = atmend - atmstart;
-    int i, k, l, np, nc, atm_id, bas_id;
+    int i, l, np, nc, atm_id, bas_id;
     double fac1;
     double *p_exp, *pcoeff, *pcoord;
     double *grid2atm = ALIGN8_UP(buf); // [atm_id,xyz,grid]
@@ -1123,11 +1123,11 @@ void SDMXeval_rad_iter(FPtr_eval_sdmx_rad feval, FPtr_exp_sdmx fexp, double fac,
                 (*feval)(vbas + sh * ngrids, eprim, nc, nao, ngrids, bgrids,
                          nao * ngrids * nalpha);
             } else {
+                // zero exactly the rows that feval would have written:
+                // the nc radial functions of this shell, for each component
                 for (i = 0; i < ncomp; i++) {
-                    for (k = 0; k < rf_loc[bas_id + 1] - rf_loc[bas_id]; k++) {
-                        _dset0(vbas + (i * nalpha * nao + sh + k) * ngrids,
-                               ngrids, bgrids, nc);
-                    }
+                    _dset0(vbas + (i * nalpha * nao + sh) * ngrids, ngrids,
+                           bgrids, nc);
                 }
             }
             sh += nao;
